@@ -99,7 +99,7 @@ fn pick_origin(rng: &mut Rng, out: &mut Out, key: &str, me: u64, ring: &HashRing
     } else {
         out.count("delta origin:not a member");
         loop {
-            let x = rng.gen_range(0..40u64);
+            let x = rng.gen_range(0..40 + 2 * members.len() as u64);
             if !members.contains(&x) && x != me {
                 break x;
             }
